@@ -25,10 +25,31 @@ def stream_of(outs):
     return toks
 
 
+def resolve_ops(case, outs):
+    """Replaces the symbolic advance_to_peeked ops by advance_to with the position the harness
+    used: the end of the k-th (modulo) match of the last peek result, 0 if there was none."""
+    ops = []
+    ends = []
+    for i, o in enumerate(case['ops']):
+        if o[0] == 'peek' and i < len(outs):
+            out = outs[i]
+            if out and out[0] in (1, 2, 3):
+                n = out[1]
+                ends = [out[2 + 3 * k + 2] for k in range(n)]
+            else:
+                ends = []
+        if o[0] == 'advance_to_peeked':
+            p = ends[o[1] % len(ends)] if ends else 0
+            ops.append(['advance_to', p])
+        else:
+            ops.append(o)
+    return ops
+
+
 def model_term(case, res):
     modes = clist([mode_term(m) for m in res['dump']['modes']])
     return '(run_case %s %s %d %s %s)' % (cls_term(res['cls']), modes, case.get('scanner_mode') or 0,
-                                          input_term(case['input']), ops_term(case['ops']))
+                                          input_term(case['input']), ops_term(resolve_ops(case, res['outs'])))
 
 
 def spec_term(case, res):
@@ -51,7 +72,7 @@ def spech_term(case, res):
     leaves = LeafIds()
     sm = smodes_term(case['modes'], res['asts'], leaves)
     return '(spec_history %s %s %d %s %s)' % (leaf_tbl_term(res['leaf'], leaves), sm, case.get('scanner_mode') or 0,
-                                              input_term(case['input']), ops_term(case['ops']))
+                                              input_term(case['input']), ops_term(resolve_ops(case, res['outs'])))
 
 
 def is_plain_stream(case):
